@@ -54,9 +54,47 @@ def big_piece_cases(self, rng, clauses, damages):
     return out
 
 
+def cfg_constants(cfg):
+    """Constants of a TLC config (single source of truth for the scaled universe)."""
+    import os
+    import re
+    from .core import SPEC
+    txt = open(os.path.join(SPEC, cfg)).read()
+    out = {}
+    for k in ("MaxFiles", "MaxSize"):
+        out[k] = int(re.search(r"%s\s*=\s*(\d+)" % k, txt).group(1))
+    out["PieceLens"] = [int(x) for x in re.search(r"PieceLens\s*=\s*\{([^}]*)\}", txt).group(1).split(",")]
+    return out
+
+
+def scaled_universe(cfg, version, clauses, rng, limit=None):
+    """Every (recorded sizes, on-disk state) of the universe model-checked with `cfg` - the Init of
+    FeedChecker.tla / HashChecker.tla enumerated the same way - as cases for the REAL checker."""
+    import itertools
+    k = cfg_constants(cfg)
+
+    def states(rec):
+        st = [{"present": False, "len": 0, "flips": []}]
+        st += [{"present": True, "len": l, "flips": []} for l in range(rec + 1)]
+        st += [{"present": True, "len": rec, "flips": [o]} for o in range(rec)]
+        return st
+    out = []
+    for P in k["PieceLens"]:
+        for n in range(1, k["MaxFiles"] + 1):
+            for recs_ in itertools.product(range(k["MaxSize"] + 1), repeat=n):
+                if sum(recs_) == 0:
+                    continue
+                for disk in itertools.product(*[states(r) for r in recs_]):
+                    out.append({"scaled": True, "version": version, "P": P, "block": 2 if P % 2 == 0 else P,
+                                "recs": list(recs_), "disk": list(disk), "clauses": clauses})
+    if limit and len(out) > limit:
+        out = rng.sample(out, limit)
+    return out
+
+
 class RecheckProp(Prop):
     engine = "E3-recheck"
-    runner = staticmethod(recheck.run_recheck)
+    runner = staticmethod(recheck.run_any)
     trace = ("TraceRecheck.tla", "Trace_Recheck.cfg")
     group_key = "group"
     timeout = 180
@@ -101,7 +139,7 @@ class RecheckProp(Prop):
             f = rng.randrange(nfiles)
             kind, arg = rng.choice(damage_options(t["files"][f]["size"], P))
             damage.append({"file": f, "kind": kind, "arg": arg})
-        return {"version": v, "meta_src": src, "P": P, "tree": t, "damage": damage,
+        return {"scaled": False, "version": v, "meta_src": src, "P": P, "tree": t, "damage": damage,
                 "route": route or ("cli" if rng.random() < 0.15 else "lib"),
                 "path_mode": path_mode, "group": group or "none", "clauses": clauses,
                 "shape": sh}
@@ -136,6 +174,9 @@ class RecheckProp(Prop):
         return case
 
     def nontrivial(self, case):
+        if case.get("scaled"):
+            return ("scaled", case["version"], case["P"], tuple(case["recs"]),
+                    tuple((d["present"], d["len"], tuple(d["flips"])) for d in case["disk"]))
         t = case["tree"]
         return (case["version"], case["meta_src"], case["P"], tuple(f["size"] for f in t["files"]),
                 tuple((d["file"], d["kind"], d["arg"]) for d in case["damage"]), case["path_mode"], case["route"],
@@ -144,7 +185,14 @@ class RecheckProp(Prop):
     def signature(self, case, rec, clause):
         return "%s/v%s" % (clause, case["version"] if case else "?")
 
+    def extra_coverage(self, tier, cases, recs):
+        sc = getattr(self, "_scaled", None)
+        return {"scaled_world_replay": sc} if sc else {}
+
     def sample(self, case, rec):
+        if case.get("scaled"):
+            return {"scaled_world": True, "version": case["version"], "P": case["P"], "recs": case["recs"],
+                    "disk": case["disk"], "stream": rec.get("stream") if rec else None}
         return {"version": case["version"], "meta_src": case["meta_src"], "P": case["P"],
                 "sizes": [f["size"] for f in case["tree"]["files"]], "damage": case["damage"],
                 "path_mode": case["path_mode"], "route": case["route"],
@@ -180,7 +228,14 @@ class C16(RecheckProp):
             out.append(c)
         out += big_piece_cases(self, rng, cl, [[], [{"file": 0, "kind": "flip", "arg": 2 ** 20 + 7}],
                                                [{"file": 0, "kind": "trunc", "arg": 2 ** 21}]])
-        return out
+        # the model-checked universe itself, replayed into the real checker (quick: the universe of the
+        # quick config, sampled; thorough: the universe of the 3-file config completely)
+        cfg1, cfg2 = ("MC_FeedChecker_quick.cfg", "MC_HashChecker_quick.cfg") if tier != "thorough" else (
+            "MC_FeedChecker.cfg", "MC_HashChecker.cfg")
+        lim = None if tier == "thorough" else 1500
+        sc = scaled_universe(cfg1, 1, cl, rng, lim) + scaled_universe(cfg2, 2, cl, rng, lim)
+        self._scaled = {"v1": cfg1, "v2": cfg2, "cases": len(sc), "complete": lim is None}
+        return out + sc
 
 
 class C04(RecheckProp):
@@ -216,9 +271,15 @@ class C04(RecheckProp):
                                 out.append(c)
         out += big_piece_cases(self, rng, ["C04.lt100"], [[{"file": 0, "kind": "flip", "arg": 2 ** 20 + 7}],
                                                           [{"file": 0, "kind": "trunc", "arg": 2 ** 21}]])
-        return out
+        lim = 20000 if tier == "thorough" else 1000
+        sc = scaled_universe("MC_FeedChecker_quick.cfg", 1, ["C04.lt100"], rng, lim) + \
+            scaled_universe("MC_HashChecker_quick.cfg", 2, ["C04.lt100"], rng, lim)
+        self._scaled = {"cases": len(sc), "complete": False}
+        return out + sc
 
     def nontrivial(self, case):
+        if case.get("scaled"):
+            return RecheckProp.nontrivial(self, case)
         t = case["tree"]
         if not any(t["files"][d["file"]]["size"] > 0 for d in case["damage"]):
             return None
@@ -264,9 +325,17 @@ class C05(RecheckProp):
                 c = dict(base)
                 c["path_mode"] = mode
                 out.append(c)
-        return out
+        lim = 20000 if tier == "thorough" else 1000
+        sc = scaled_universe("MC_FeedChecker_quick.cfg", 1, ["C05.hundred"], rng, lim) + \
+            scaled_universe("MC_HashChecker_quick.cfg", 2, ["C05.hundred"], rng, lim)
+        for c in sc:
+            c["group"] = "none"
+        self._scaled = {"cases": len(sc), "complete": False}
+        return out + sc
 
     def nontrivial(self, case):
+        if case.get("scaled"):
+            return RecheckProp.nontrivial(self, case)
         sizes = [f["size"] for f in case["tree"]["files"]]
         if not (case["tree"].get("single") or any(s == 0 or s % case["P"] == 0 for s in sizes)):
             return None
